@@ -155,7 +155,10 @@ def d2_d3_mute(ctx):
     # backward slice of mute
     seen_defs = set()
     bad = []
-    work = [(loc_name(mute_e), rets[-1])]
+    if loc_name(mute_e):
+        work = [(loc_name(mute_e), rets[-1])]
+    else:  # the gain expression is written in the return statement itself
+        work = [(n.id, rets[-1]) for n in ast.walk(mute_e) if isinstance(n, ast.Name) and n.id not in ("np", "scipy")]
     visited = set()
     while work:
         nm, at = work.pop()
@@ -179,10 +182,14 @@ def d2_d3_mute(ctx):
     ctx.check(not bad, fi, rets[-1], f"slice of {src(mute_e)}", "the mute gain is a function of the flags (and the taper width) only",
               f"the mute gain also depends on {sorted(set(bad))} directly (not through the flags)", key="slice")
     # the flags feeding the mute are the final boolean ones
-    md = du.strong_reaching(loc_name(mute_e), rets[-1])
+    if loc_name(mute_e):
+        md = [(d.value, d.stmt) for d in du.strong_reaching(loc_name(mute_e), rets[-1])]
+    else:
+        md = [(mute_e, rets[-1])]
     ctx.rule("D3", "mute = maximum(0, 1 - convolve(flags, cosine window, mode='same')) in [0, 1]; returns (flags, mute)")
-    for d in md:
-        v = d.value
+    if not md:
+        raise AnalysisError("saturation: the returned gain has no definition")
+    for v, d_stmt in md:
         form = None
         if isinstance(v, ast.Call) and call_name(v) == "maximum" and len(v.args) == 2:
             zero = [a for a in v.args if const_value(a) == (True, 0)]
@@ -193,18 +200,18 @@ def d2_d3_mute(ctx):
             a0 = v.args[0]
             if isinstance(a0, ast.BinOp) and isinstance(a0.op, ast.Sub) and const_value(a0.left) == (True, 1):
                 form = a0.right
-        ctx.check(form is not None, fi, d.stmt, d.stmt, "gain is 1 - (non-negative), clipped at 0: within [0, 1]",
-                  f"`{src(d.stmt)}` is not max(0, 1 - x) / clip(1 - x, 0, 1): the gain can leave [0, 1]", key="range")
+        ctx.check(form is not None, fi, d_stmt, d_stmt, "gain is 1 - (non-negative), clipped at 0: within [0, 1]",
+                  f"`{src(d_stmt)}` is not max(0, 1 - x) / clip(1 - x, 0, 1): the gain can leave [0, 1]", key="range")
         if form is not None:
             okc = isinstance(form, ast.Call) and call_name(form) in ("convolve", "fftconvolve", "oaconvolve") and len(form.args) >= 2
             if okc:
                 a, w = form.args[0], form.args[1]
-                fa = {x.idx for x in du.strong_reaching(loc_name(a), d.stmt)} if loc_name(a) else set()
-                wv = expand_name(du, w, d.stmt)
+                fa = {x.idx for x in du.strong_reaching(loc_name(a), d_stmt)} if loc_name(a) else set()
+                wv = expand_name(du, w, d_stmt)
                 okw = isinstance(wv, ast.Call) and call_name(wv) in ("cosine", "hann", "hanning") and "mute_window_samples" in src(wv)
                 mode = kwarg(form, "mode")
                 okc = fa == final_flags and bool(fa) and okw and const_value(mode) == (True, "same")
-            ctx.check(okc, fi, d.stmt, form, "x is the final flags convolved (same length) with the non-negative taper window",
+            ctx.check(okc, fi, d_stmt, form, "x is the final flags convolved (same length) with the non-negative taper window",
                       f"`{src(form)}` is not convolve(<final flags>, cosine(mute_window_samples), mode='same')", key="conv")
     ctx.check(all(isinstance(du.defs[i].value, ast.Call) and call_name(du.defs[i].value) in ("logical_or", "logical_and") or isinstance(du.defs[i].value, ast.BinOp)
                   for i in final_flags) and bool(final_flags), fi, rets[-1], rets[-1], "first returned value is the boolean flag vector",
